@@ -758,7 +758,9 @@ fn delta_event(sid: &str, seq: u64, total: usize, esc: bool) -> rip_kernel::Even
 }
 
 fn push_violation(res: &mut RunResult, case_id: i64, what: String, class: &str, replay: serde_json::Value) {
-    if res.oracle_violations.len() < 40 {
+    // at most 4 reports per class, so that one loud detector does not hide the others
+    res.bump(&format!("violations_of_class={class}"));
+    if res.oracle_violations.iter().filter(|v| v.class == class).count() < 4 {
         res.oracle_violations.push(OracleViolation { case_id, what, class: class.into(), replay });
     }
 }
@@ -1099,6 +1101,10 @@ fn main() {
                 }
                 for (what, class) in &o.violations {
                     let cls = class.clone();
+                    if res.oracle_violations.iter().filter(|v| v.class == cls).count() >= 4 {
+                        res.bump(&format!("violations_of_class={cls}"));
+                        break;
+                    }
                     // shrinking re-runs the history: skip it for the long sweeps once a few are reported
                     let shrunk = if res.oracle_violations.len() < 6 {
                         shrink_vec(calls.clone(), |cs| {
@@ -1107,7 +1113,7 @@ fn main() {
                     } else {
                         calls.clone()
                     };
-                    res.oracle_violations.push(OracleViolation { case_id: i as i64, what: format!("{label}: {what}"), class: class.clone(), replay: json!(shrunk.iter().map(call_json).collect::<Vec<_>>()) });
+                    push_violation(&mut res, i as i64, format!("{label}: {what}"), class, json!(shrunk.iter().map(call_json).collect::<Vec<_>>()));
                     break;
                 }
                 if o.unmodelled {
@@ -1129,8 +1135,8 @@ fn main() {
                 }
             }
         }
-        if res.oracle_violations.len() >= 25 {
-            res.notes.push("stopped after 25 oracle violations".into());
+        if res.distribution.iter().filter(|(k, _)| k.starts_with("violations_of_class=")).map(|(_, n)| *n).sum::<u64>() >= 60 {
+            res.notes.push("history loop stopped after 60 oracle violations".into());
             break;
         }
     }
